@@ -101,6 +101,7 @@ func (m *Machine) step(th *Thread) (yielded bool) {
 		panic(fmt.Sprintf("fell off block in %s", fr.fn))
 	}
 	in := fr.block.Instrs[fr.pc]
+	m.curFn = fr.fn
 	if p := in.Pos(); p.IsValid() {
 		cs, ok := m.siteCache[p]
 		if !ok {
